@@ -206,6 +206,14 @@ func runC10(c *fw.Ctx) {
 			c.Violate("", "Commit failed: %v", err)
 			return
 		}
+		if _, w0 := m.Ref(); w0 > 0 && r.Intn(2) == 0 {
+			// a proof requested while the batch is not written yet may fail (collapsed nodes are not resolvable);
+			// it must not leave anything behind that spoils the proofs taken afterwards
+			if _, _, perr := t.GetBlockProof(1 + uint64(r.Intn(int(w0)))); perr != nil {
+				c.Count("proof_attempts_failed_before_the_batch_was_written", 1)
+			}
+			c.Count("proof_attempts_before_the_batch_was_written", 1)
+		}
 		_ = b.Commit(true)
 		if mode == 2 {
 			wr, ww := m.Ref()
@@ -459,7 +467,7 @@ func init() {
 		ID:           "C10",
 		EvalCounters: []string{"tamperings", "honest_proofs_verified"},
 		Level:        "exploration",
-		Rule: "a third of the tries delete and put back unchanged entries in one commit window, commit and run two garbage-collection passes before the proofs are taken; for half of the committed tries a CopyRoot snapshot view is taken, the trie is updated further in memory, and every proof of the view must verify against the view's own root and content. Each case builds a weighted trie of 2..10 keys (a fifth of the values are 80..160 bytes long; after a first commit a third of the values are replaced by different values of the same weight) (in memory / committed at level 0..4 / committed and reloaded from the hash). Honest half: every block 1..W proves to the reference root with the owner's value. Adversarial half: for every block (thorough) / first, last and three random blocks (quick) the honest proof is decoded with the exported Persist* types, " +
+		Rule: "half of the committed tries are asked for a proof between Commit and the write of its batch (the attempt may fail and must leave nothing behind); a third of the tries delete and put back unchanged entries in one commit window, commit and run two garbage-collection passes before the proofs are taken; for half of the committed tries a CopyRoot snapshot view is taken, the trie is updated further in memory, and every proof of the view must verify against the view's own root and content. Each case builds a weighted trie of 2..10 keys (a fifth of the values are 80..160 bytes long; after a first commit a third of the values are replaced by different values of the same weight) (in memory / committed at level 0..4 / committed and reloaded from the hash). Honest half: every block 1..W proves to the reference root with the owner's value. Adversarial half: for every block (thorough) / first, last and three random blocks (quick) the honest proof is decoded with the exported Persist* types, " +
 			"tampered and re-encoded: T1 sum-preserving re-weighting of claimed child weights in each branch (all ordered sibling pairs, deltas 1, 2 and the whole weight; same tail and honest tails of other blocks), T2 sum-changing re-weighting, T3 swapped sibling entries/hashes, T4 nodes or whole proofs from other blocks, positions and another trie, " +
 			"T5 dropped/duplicated/reordered/truncated elements, T6 edited short keys, child weights, value bytes and weights, T7 type confusion (hash/nil/value node in place of an element), T8 bit flips and raw splices. A forged proof is a violation iff verification returns no error, the trusted root and a value different from the true owner's. " +
 			"distinct non-trivial = distinct (trie root, block, tampering class) combinations submitted",
@@ -470,7 +478,7 @@ func init() {
 			return 1280
 		},
 		Run: runC10,
-		Floors: map[string]int64{"tries_with_readded_entries_and_gc": 300, "snapshot_views_checked_after_live_updates": 300, "tries": 1000, "honest_proofs_verified": 20000, "tamperings": 1000000, "tamper:T2 sum-changing re-weighting": 10000, "tamper:T1 sum-preserving re-weighting": 10000, "tamper:T3 swapped sibling hashes": 10000,
+		Floors: map[string]int64{"tries_with_readded_entries_and_gc": 300, "snapshot_views_checked_after_live_updates": 300, "proof_attempts_before_the_batch_was_written": 300, "tries": 1000, "honest_proofs_verified": 20000, "tamperings": 1000000, "tamper:T2 sum-changing re-weighting": 10000, "tamper:T1 sum-preserving re-weighting": 10000, "tamper:T3 swapped sibling hashes": 10000,
 			"tamper:T4 honest proof of another block": 10000, "tamper:T5 dropped element": 10000, "tamper:T6 value weight edited": 5000, "tamper:T7 element replaced by a hash node": 10000, "tamper:T8 bit flips": 50000, "rejected_with_error": 100000, "rejected_other_root": 100000, "same_weight_overwrites": 1000, "tamper:T6 long value edited beyond byte 32": 500},
 		Assumptions: []string{
 			"the adversarial half ranges over structured tamperings of honest proofs and random byte edits, not over all byte strings",
